@@ -1,7 +1,8 @@
 (* C06 - Accepted scripts always yield well-formed, compilable Arduino C++.
    Nothing but statements, closed by [exact], each followed by Print Assumptions.
    Models: Lang/Escape.v (escape = _escape_string_literal; clex_string = the g++ lexer of one
-   ordinary string literal), Lang/Sections.v (the emitter's stitching order, declared-before-use).
+   ordinary string literal), Lang/Sections.v (the emitter's stitching order incl. the prototypes,
+   declared-before-use).
    Lang/Scope.v (C++ block scoping over the IR of the statement translator Lang/Transl.v).
    Lang/Headers.v (library includes vs. instantiated library classes), Lang/FnSelect.v (which
    specialisations of the user functions are emitted, and their C++ parameter lists).
@@ -11,7 +12,7 @@
 From Coq Require Import ZArith List Bool Sorting.Sorted.
 From RV Require Import Base.Wire Base.Text Lang.Escape Lang.Sections Proofs.EscapeP Proofs.SectionsP.
 From RV Require Import Lang.StmtAst Lang.Transl Lang.Scope Proofs.ScopeP.
-From RV Require Lang.Headers Proofs.HeadersP Lang.FnSelect Proofs.FnSelectP.
+From RV Require Lang.Headers Proofs.HeadersP Lang.FnSelect Proofs.FnSelectP Lang.CAst.
 From RV Require Lang.EmitScope Proofs.EmitScopeP Lang.Globals Proofs.GlobalsP.
 Import ListNotations.
 Open Scope Z_scope.
@@ -19,57 +20,105 @@ Open Scope Z_scope.
 (* ---------------------------------------------------------------- string literals *)
 
 (* the emitted literal  quote, escape s, quote  is read back by the C++ lexer as exactly s,
-   wherever it stands in the file, for EVERY string without a line-end character
-   (LF 10, CR 13) - in particular for every str.isprintable() string, the property's
-   quantifier: backslashes, quotes, question marks, percent signs, non-ASCII are all fine *)
-Theorem C06_escape_roundtrip_partial : forall s rest : text,
-  (forall c, In c s -> c <> 10 /\ c <> 13) ->
+   wherever it stands in the file, for EVERY string: backslashes, quotes, question marks,
+   percent signs, line ends (LF, CR), tabs, every other control character, DEL.  A code
+   point >= 128 is emitted verbatim and stored by the compiler as its UTF-8 bytes, exactly
+   as before the repair (the lexer model keeps it as one code point).
+   (Was C06_escape_roundtrip_partial with the guard "no LF / CR in s", next to
+   C06_escape_refuted with the witness a LF b, until the fix "escape control characters in
+   string literals".) *)
+Theorem C06_escape_roundtrip : forall s rest : text,
   clex_string (34 :: escape s ++ [34] ++ rest) = Some (s, rest).
 Proof. exact escape_roundtrip. Qed.
-Print Assumptions C06_escape_roundtrip_partial.
+Print Assumptions C06_escape_roundtrip.
 
-(* without the guard it is false: a raw line end lands inside the literal (unterminated
-   literal; g++: missing terminating quote character) - witness a, LF, b *)
-Theorem C06_escape_refuted : exists s : text, clex_string (34 :: escape s ++ [34]) = None.
-Proof. exact escape_refuted. Qed.
-Print Assumptions C06_escape_refuted.
+(* the literal is clean source text: whatever the string, the emitted characters contain no line
+   end, no tab, no other code point below 0x20 and no DEL *)
+Theorem C06_escape_image_clean : forall (s : text) (c : Z), In c (escape s) ->
+  is_ctl c = false /\ c <> 10 /\ c <> 13 /\ c <> 9.
+Proof. exact escape_image_clean. Qed.
+Print Assumptions C06_escape_image_clean.
 
-(* the guard is (all but) necessary: any string whose first line-end character is not
-   preceded by a backslash yields a literal that does not lex *)
-Theorem C06_escape_line_end_fails : forall (a : text) (e : Z) (b rest : text),
-  (forall c, In c a -> c <> 10 /\ c <> 13) -> last a 0 <> 92 -> (e = 10 \/ e = 13) ->
-  clex_string (34 :: escape (a ++ e :: b) ++ [34] ++ rest) = None.
-Proof. exact escape_line_end_fails. Qed.
-Print Assumptions C06_escape_line_end_fails.
+Theorem C06_is_ctl_meaning : forall c : Z, is_ctl c = true <-> (0 <= c < 32 \/ c = 127).
+Proof. exact is_ctl_range. Qed.
+Print Assumptions C06_is_ctl_meaning.
 
 (* distinct strings give distinct literals *)
 Theorem C06_escape_injective : forall s t : text, escape s = escape t -> s = t.
 Proof. exact escape_injective. Qed.
 Print Assumptions C06_escape_injective.
 
-(* the two replace passes are one pass: backslash -> 2 backslashes, quote -> backslash quote *)
-Theorem C06_escape_one_pass : forall s : text,
-  escape s = flat_map (fun c => if c =? 92 then [92; 92] else if c =? 34 then [92; 34] else [c]) s.
-Proof. exact escape_flat. Qed.
-Print Assumptions C06_escape_one_pass.
+(* the pieces of an f-string are escaped one by one: that is the escape of the whole *)
+Theorem C06_escape_app : forall a b : text, escape (a ++ b) = escape a ++ escape b.
+Proof. exact escape_app. Qed.
+Print Assumptions C06_escape_app.
+
+(* the repair changes nothing for a string without control characters (in particular for every
+   str.isprintable() string): same text as the two replace passes for backslash and quote *)
+Theorem C06_escape_unchanged_without_control : forall s : text,
+  (forall c, In c s -> is_ctl c = false) -> escape s = escape_quotes_only s.
+Proof. exact escape_agrees_without_control. Qed.
+Print Assumptions C06_escape_unchanged_without_control.
+
+(* an octal escape of exactly three digits is complete: whatever follows it (a digit, a hex digit,
+   a backslash, a line splice, the end of input) is read as if the value had been an ordinary
+   character - the reason why the repair may not use shorter octal or hexadecimal escapes *)
+Theorem C06_three_octal_digits_closed : forall (s : text) (v : Z) (acc : text), v <= 255 ->
+  clex_go (LOct 3 v) acc s = clex_go LNorm (v :: acc) s.
+Proof. exact go_oct3_done. Qed.
+Print Assumptions C06_three_octal_digits_closed.
+
+(* the witnesses of the two repaired findings now denote themselves; a control character followed by
+   a digit; and what a one-digit octal / a hexadecimal escape would do with the following character *)
+Example C06_escape_witnesses :
+  escape [97; 10; 98] = [97; 92; 110; 98] /\
+  clex_string (c_literal [97; 10; 98]) = Some ([97; 10; 98], []) /\
+  escape [97; 92; 10; 98] = [97; 92; 92; 92; 110; 98] /\
+  clex_string (c_literal [97; 92; 10; 98]) = Some ([97; 92; 10; 98], []) /\
+  escape [1; 49] = [92; 48; 48; 49; 49] /\
+  clex_string (c_literal [1; 49]) = Some ([1; 49], []) /\
+  clex_string (34 :: [92; 49] ++ [49] ++ [34]) = Some ([9], []) /\
+  clex_string (34 :: [92; 120; 49] ++ [98] ++ [34]) = Some ([27], []).
+Proof. exact roundtrip_witnesses. Qed.
+Print Assumptions C06_escape_witnesses.
 
 Example C06_escape_nonvacuous :
-  let s := [97; 92; 34; 39; 63; 63; 47; 37; 233; 92; 92; 34; 92] in
-  no_line_end s /\
-  escape s = [97; 92; 92; 92; 34; 39; 63; 63; 47; 37; 233; 92; 92; 92; 92; 92; 34; 92; 92] /\
+  let s := [97; 92; 34; 39; 63; 63; 47; 37; 233; 10; 13; 9; 0; 27; 55; 127; 92; 10; 92; 92; 34; 92] in
+  escape s = [97; 92; 92; 92; 34; 39; 63; 63; 47; 37; 233; 92; 110; 92; 114; 92; 116; 92; 48; 48; 48;
+              92; 48; 51; 51; 55; 92; 49; 55; 55; 92; 92; 92; 110; 92; 92; 92; 92; 92; 34; 92; 92] /\
   clex_string (c_literal s ++ [59]) = Some (s, [59]).
 Proof. exact roundtrip_demo. Qed.
 Print Assumptions C06_escape_nonvacuous.
 
-(* and a backslash before the line end does not fail but silently changes the text *)
-Example C06_escape_splice_corrupts :
-  clex_string (c_literal [97; 92; 10; 98]) = Some ([97; 8], []).
-Proof. exact escape_splice_corrupts. Qed.
-Print Assumptions C06_escape_splice_corrupts.
+(* the expression printer of unit C01_expr (Lang/CAst.v: print_c of a string literal) writes literals with this very function *)
+Theorem C06_same_escape_in_expression_printer : forall s : text, CAst.escape s = escape s.
+Proof. exact cast_escape_same. Qed.
+Print Assumptions C06_same_escape_in_expression_printer.
+
+(* escaping lengthens by one per backslash / quote / LF / CR / tab and by three per other control character *)
+Theorem C06_escape_length : forall s : text,
+  length (escape s) = (length s + length (filter esc_simple s) + 3 * length (filter esc_octal s))%nat.
+Proof. exact escape_length. Qed.
+Print Assumptions C06_escape_length.
+
+(* what the repair is for: with backslash and quote alone (the function before the repair), any string
+   whose first line-end character is not preceded by a backslash yields a literal that does not lex ... *)
+Theorem C06_escape_control_needed : forall (a : text) (e : Z) (b rest : text),
+  (forall c, In c a -> c <> 10 /\ c <> 13) -> last a 0 <> 92 -> (e = 10 \/ e = 13) ->
+  clex_string (34 :: escape_quotes_only (a ++ e :: b) ++ [34] ++ rest) = None.
+Proof. exact old_escape_line_end_fails. Qed.
+Print Assumptions C06_escape_control_needed.
+
+(* ... and a backslash before the line end does not fail but silently changes the text *)
+Example C06_old_escape_broken :
+  clex_string (c_literal_old [97; 10; 98]) = None /\
+  clex_string (c_literal_old [97; 92; 10; 98]) = Some ([97; 8], []).
+Proof. exact old_escape_broken. Qed.
+Print Assumptions C06_old_escape_broken.
 
 (* ---------------------------------------------------------------- section order *)
 
-(* includes < helper snippets < globals < functions < ultrasonic helpers < setup < loop,
+(* includes < helper snippets < globals < prototypes < functions < ultrasonic helpers < setup < loop,
    exactly one setup and one loop, and they come last *)
 Theorem C06_section_order : forall sk : sketch,
   StronglySorted (fun a b => rank a <= rank b) (map ikind (stitch sk)) /\
@@ -78,70 +127,83 @@ Theorem C06_section_order : forall sk : sketch,
 Proof. exact section_order. Qed.
 Print Assumptions C06_section_order.
 
+(* one prototype per emitted function definition and per ultrasonic helper, in that order, each
+   declaring exactly the names of its definition *)
+Theorem C06_prototypes_complete : forall sk : sketch,
+  map idefs (protos sk) = map fst (sk_functions sk ++ sk_ultras sk) /\
+  Forall (fun it => ikind it = KProto /\ iuses it = []) (protos sk).
+Proof. exact protos_spec. Qed.
+Print Assumptions C06_prototypes_complete.
+
 (* wf_order is "every use is preceded by a definition (or is a self reference)" *)
 Theorem C06_wf_order_meaning : forall l : list item,
   wf_order l = true <-> declared_before l.
 Proof. exact wf_order_spec. Qed.
 Print Assumptions C06_wf_order_meaning.
 
-(* consequence of the order: a user function that calls <sensor>.measure_distance()
-   mentions __redu_ultrasonic_measure_<sensor> BEFORE its definition - for every choice
-   of names; the offending item is item 1 (the function), the identifier the helper *)
-Theorem C06_fn_uses_ultra_refuted : forall core fn helper : Sections.ident,
-  helper <> fn -> helper <> core ->
-  wf_order (stitch (ultra_in_function core fn helper)) = false /\
-  undeclared (stitch (ultra_in_function core fn helper)) = [(1, helper)].
-Proof. exact fn_uses_ultra_breaks. Qed.
-Print Assumptions C06_fn_uses_ultra_refuted.
-
-(* same for a function calling one that is defined later in the script (no prototypes) *)
-Theorem C06_fn_forward_call_refuted : forall core f g : Sections.ident,
-  g <> f -> g <> core -> wf_order (stitch (forward_call core f g)) = false.
-Proof. exact fn_forward_call_breaks. Qed.
-Print Assumptions C06_fn_forward_call_refuted.
-
-(* when every section mentions only what the guard allows - functions: includes, helper
-   snippets, globals, themselves and EARLIER functions (no ultrasonic helper, no later
-   function) - the stitched sketch declares everything before use *)
+(* when every section mentions only what the guard allows - includes, helper snippets and globals what
+   precedes them; a FUNCTION or an ultrasonic helper: includes, helper snippets, globals, ANY user
+   function and ANY ultrasonic helper, defined earlier or later; setup / loop everything at file scope -
+   the stitched sketch declares everything before use *)
 Theorem C06_wf_order_partial : forall sk : sketch,
   guard sk = true -> wf_order (stitch sk) = true /\ declared_before (stitch sk).
 Proof. exact (fun sk G => conj (wf_order_partial sk G) (wf_order_partial_prop sk G)). Qed.
 Print Assumptions C06_wf_order_partial.
 
-(* the proposed repair (prototypes after the globals) is adequate in the model *)
-Theorem C06_proto_fix_wf : forall sk : sketch,
-  guard_proto sk = true -> wf_order (stitch_proto sk) = true.
-Proof. exact proto_fix_wf. Qed.
-Print Assumptions C06_proto_fix_wf.
+(* a user function that calls <sensor>.measure_distance() mentions __redu_ultrasonic_measure_<sensor>,
+   which is DEFINED below it: inside the guard and declared before use, for every choice of names
+   (was C06_fn_uses_ultra_refuted until the fix "forward-declare functions") *)
+Theorem C06_fn_uses_ultra_declared : forall core fn helper : Sections.ident,
+  guard (ultra_in_function core fn helper) = true /\
+  wf_order (stitch (ultra_in_function core fn helper)) = true /\
+  undeclared (stitch (ultra_in_function core fn helper)) = [].
+Proof. exact fn_uses_ultra_declared. Qed.
+Print Assumptions C06_fn_uses_ultra_declared.
 
-Theorem C06_proto_fix_covers_findings : forall core fn helper : Sections.ident,
-  wf_order (stitch_proto (ultra_in_function core fn helper)) = true /\
-  wf_order (stitch_proto (forward_call core fn helper)) = true.
-Proof. exact proto_fix_covers_findings. Qed.
-Print Assumptions C06_proto_fix_covers_findings.
+(* same for a function calling one that is defined later in the script (was C06_fn_forward_call_refuted) *)
+Theorem C06_fn_forward_call_declared : forall core f g : Sections.ident,
+  guard (forward_call core f g) = true /\
+  wf_order (stitch (forward_call core f g)) = true /\
+  undeclared (stitch (forward_call core f g)) = [].
+Proof. exact fn_forward_call_declared. Qed.
+Print Assumptions C06_fn_forward_call_declared.
+
+(* what the prototypes are for: in the order WITHOUT them both shapes use an undeclared name - the
+   offending item is item 1 (the function), the identifier the helper *)
+Theorem C06_prototypes_needed : forall core fn helper : Sections.ident,
+  helper <> fn -> helper <> core ->
+  wf_order (stitch_noproto (ultra_in_function core fn helper)) = false /\
+  undeclared (stitch_noproto (ultra_in_function core fn helper)) = [(1, helper)] /\
+  wf_order (stitch_noproto (forward_call core fn helper)) = false.
+Proof.
+  exact (fun core fn helper A B =>
+    conj (proj1 (noproto_fn_uses_ultra_breaks core fn helper A B))
+      (conj (proj2 (noproto_fn_uses_ultra_breaks core fn helper A B))
+            (noproto_fn_forward_call_breaks core fn helper A B))).
+Qed.
+Print Assumptions C06_prototypes_needed.
+
+(* the repair only widens: every sketch the guard of the old order admitted is admitted now *)
+Theorem C06_guard_widened : forall sk : sketch, guard_noproto sk = true -> guard sk = true.
+Proof. exact guard_widened. Qed.
+Print Assumptions C06_guard_widened.
 
 Example C06_guard_nonvacuous :
   guard demo_sketch = true /\ wf_order (stitch demo_sketch) = true /\
-  length (stitch demo_sketch) = 10%nat /\ undeclared (stitch demo_sketch) = [].
+  length (stitch demo_sketch) = 13%nat /\ undeclared (stitch demo_sketch) = [] /\
+  map idefs (protos demo_sketch) = [[30]; [31]; [40]] /\
+  guard_noproto demo_sketch = false /\ undeclared (stitch_noproto demo_sketch) = [(5, 31); (5, 40)].
 Proof. exact guard_nonvacuous. Qed.
 Print Assumptions C06_guard_nonvacuous.
 
-(* escaping only ever lengthens by one per backslash / quote, and introduces no line end *)
-Theorem C06_escape_length : forall s : text,
-  length (escape s) = (length s + length (filter (fun c : Z => Z.eqb c 92 || Z.eqb c 34) s))%nat.
-Proof. exact escape_length. Qed.
-Print Assumptions C06_escape_length.
-
-Theorem C06_escape_no_new_line_end : forall s : text,
-  (forall c, In c s -> c <> 10 /\ c <> 13) -> (forall c, In c (escape s) -> c <> 10 /\ c <> 13).
-Proof. exact escape_no_new_line_end. Qed.
-Print Assumptions C06_escape_no_new_line_end.
-
-(* the stitched sketch consists of exactly the given sections: nothing lost, nothing invented *)
+(* the stitched sketch consists of exactly the given sections and the prototypes generated from the
+   functions and the ultrasonic helpers: nothing lost, nothing invented *)
 Theorem C06_stitch_complete : forall (sk : sketch) (k : skind) (b : body),
   In (k, b) (stitch sk) <->
   (k = KInclude /\ In b (sk_includes sk)) \/ (k = KHelper /\ In b (sk_helpers sk)) \/
-  (k = KGlobal /\ In b (sk_globals sk)) \/ (k = KFunction /\ In b (sk_functions sk)) \/
+  (k = KGlobal /\ In b (sk_globals sk)) \/
+  (k = KProto /\ exists d, In d (sk_functions sk ++ sk_ultras sk) /\ b = (fst d, [])) \/
+  (k = KFunction /\ In b (sk_functions sk)) \/
   (k = KUltra /\ In b (sk_ultras sk)) \/ (k = KSetup /\ b = sk_setup sk) \/ (k = KLoop /\ b = sk_loop sk).
 Proof. exact stitch_complete. Qed.
 Print Assumptions C06_stitch_complete.
